@@ -245,7 +245,8 @@ def r4_discharge(ctx):
 
             def idom_nonempty(c):
                 c = strip(c)
-                if is_call(c, name="empty") and is_param(obj(c), fn, 1):
+                if is_call(c, name="empty") and any(is_param(obj(c), fn, i) for i, pp in enumerate(fn.get("params", []))
+                                                    if "idom" in (pp.get("T") or "") or "idom" in (pp.get("n") or "")):
                     return -1
                 return 0
             has_idom = guard_truth(g.get(id(lam[-1]) if lam else id(n), ()), idom_nonempty, body)
